@@ -248,7 +248,21 @@ def oracle(b, deps_pending, stale):
 
 
 def rule_decision_table(ctx, r):
-    outer, inner, sem, rows = explore_schedule(ctx)
+    """Decision table of schedule(): abstract exploration when the code shape is recognised, and in any case the concrete witness
+    evaluation of schedule() against the oracle written from the property text (evalhelpers.schedule_witness)."""
+    from .evalhelpers import cached_witness, schedule_witness
+    full = ctx.tier == "thorough" and ctx.prop == "C02"
+    ctx.structural_or_witness(r, _decision_table_structural, lambda: cached_witness(ctx, "schedule-full" if full else "schedule", lambda c: schedule_witness(c, full=full)),
+                              "src/gwf/scheduling.py::schedule", both=True)
+
+
+def _decision_table_structural(ctx, r):
+    try:
+        outer, inner, sem, rows = explore_schedule(ctx)
+    except Exception as exc:  # the shape rule cannot follow this code: the witness evaluation decides
+        r.violation("src/gwf/scheduling.py::schedule", f"the decision function of schedule() is not in a shape the table extraction recognises ({type(exc).__name__}: {exc})",
+                    "src/gwf/scheduling.py:1")
+        return
     con = f"{inner.module.relpath}::{inner.qual}"
     n_cells = 0
     bad = {}
